@@ -646,8 +646,7 @@ def run(ctx):
                                      "geocentric latitudes within 1e-10 rad of 1 rad; LOS: za in [0.5, 179.5], aa in (-180, 180]; "
                                      "distances: uniform, near-coincident, near-antipodal, poles, date line")
     ctx.assumptions += ["domain as in the property: |lat| <= 88 deg, heights -10 km .. 1000 km, zenith angles away from 0 / 180",
-                        "the contraction bound of the geodetic iteration and the triangle inequality of the arc are named gaps "
-                        "(checked numerically only)"]
+                        "the contraction bound of the geodetic iteration is a named gap (checked numerically only)"]
     return ctx.finish(trusted_base=TRUSTED)
 
 
